@@ -327,7 +327,9 @@ where
             }
             Decoded::Packet(Packet::PublishRelease(ack), size) => {
                 if self.inner.info.borrow().inflight.contains(&ack.packet_id) {
-                    self.inner.control(ProtocolMessage::pubrel(ack, size)).await
+                    // packet id is released when PUBCOMP is produced
+                    let id = ack.packet_id.get();
+                    self.inner.control_pkt(ProtocolMessage::pubrel(ack, size), id).await
                 } else {
                     Ok(Some(Encoded::Packet(codec::Packet::PublishComplete(
                         codec::PublishAck2 {
@@ -518,6 +520,10 @@ where
 
     if let Some(id) = num::NonZeroU16::new(packet_id) {
         let ack = if qos2 {
+            if u8::from(ack.reason_code) >= 0x80 {
+                // negative PUBREC completes the exchange, PUBREL is not going to follow
+                inner.info.borrow_mut().inflight.remove(&id);
+            }
             codec::Packet::PublishReceived(codec::PublishAck {
                 packet_id: id,
                 reason_code: ack.reason_code,
